@@ -689,6 +689,28 @@ class LoopSym(XSym):
         return self.run(rest, e3, target)
 
 
+def ctor_args(tree: ast.Module, call: ast.Call, cls_name: str):  # type: ignore[no-untyped-def]
+    """Constructor call `Cls(…)` of a class defined in the module: its arguments bound to the parameter names of
+    `Cls.__init__` (positional or by keyword, defaults left out); None when it is not such a call / does not bind."""
+    if ast.unparse(call.func) != cls_name:
+        return None
+    cls = next((n for n in tree.body if isinstance(n, ast.ClassDef) and n.name == cls_name), None)
+    init = next((n for n in (cls.body if cls else []) if isinstance(n, ast.FunctionDef) and n.name == "__init__"), None)
+    if init is None or init.args.vararg or init.args.kwarg:
+        return None
+    pos = [x.arg for x in init.args.posonlyargs + init.args.args][1:]
+    names = pos + [x.arg for x in init.args.kwonlyargs]
+    if len(call.args) > len(pos) or any(isinstance(x, ast.Starred) for x in call.args):
+        return None
+    out = dict(zip(pos, call.args))
+    for k in call.keywords:
+        if k.arg is None or k.arg not in names or k.arg in out or k.arg in [x.arg for x in init.args.posonlyargs]:
+            return None
+        out[k.arg] = k.value
+    required = set(pos[:len(pos) - len(init.args.defaults)]) | {x.arg for x, d in zip(init.args.kwonlyargs, init.args.kw_defaults) if d is None}
+    return out if required <= set(out) else None
+
+
 def loop_parts(res: ast.ClassDef, tree: ast.Module) -> str:
     fn = RS.find_method(res, "resample")
     methods = {n.name: n for n in res.body if isinstance(n, (ast.FunctionDef, ast.AsyncFunctionDef))}
@@ -762,10 +784,10 @@ def loop_parts(res: ast.ClassDef, tree: ast.Module) -> str:
     def finish_target(s: ast.stmt, e: dict):  # type: ignore[no-untyped-def]
         if isinstance(s, ast.Raise):
             c = s.exc
-            if not (isinstance(c, ast.Call) and ast.unparse(c.func) == "ResamplingError" and len(c.args) == 1 and not c.keywords
-                    and s.cause is None):
+            a = ctor_args(tree, c, "ResamplingError") if isinstance(c, ast.Call) and s.cause is None else None
+            if a is None or len(a) != 1:
                 raise Unsupported("an exception other than ResamplingError(exceptions) is raised")
-            v = sym.ev(c.args[0], e)
+            v = sym.ev(next(iter(a.values())), e)
             if not (isinstance(v, Fam) and v.isdict):
                 raise Unsupported("ResamplingError is not raised with the dict of failed sources")
             return out(e, sym.render_sources(v), "LoopExit.raised")
